@@ -26,6 +26,33 @@ def build_thsim():
     return None
 
 
+def thsim_crash_triage(rc, schedules):
+    """thsim was killed by a signal: memory unsafety reached through the thread scenarios. Find the
+    program, confirm it dies twice alone in a fresh process while its thread-free execution (also a
+    fresh process) completes, and report it."""
+    import glob
+    cands = set()
+    for f in glob.glob(f"{SIM}/target-ts/progress-thsim/worker-*"):
+        try:
+            cands.add(int(open(f).read().strip() or -1))
+        except Exception:
+            pass
+    for p in sorted(c for c in cands if c >= 0):
+        cmd = f"./target-ts/release/thsim run --programs 1 --first-program {p} --schedules {schedules} --seed {SEED} --threads 1 --replay-dir {ROOT}/replays"
+        r1 = sh(cmd, cwd=SIM)
+        if not (r1.returncode < 0 or r1.returncode >= 128):
+            continue
+        r2 = sh(cmd, cwd=SIM)
+        rb = sh(cmd + " --baseline-only", cwd=SIM)
+        if r2.returncode == r1.returncode and rb.returncode == 0:
+            path = f"{ROOT}/replays/C20/thsim-crash-{SEED}-{p}.json"
+            json.dump({"property": "C20", "mode": "thsim-crash", "seed": SEED, "program": p, "schedules": schedules, "exit": r1.returncode,
+                       "what": "exploring this generated thread scenario under shuttle kills the process with a signal (twice, alone, in fresh processes) while the same scenario without threads completes: memory unsafety that needs interleaved access"}, open(path, "w"), indent=1)
+            print(f"thsim: program {p} (seed {SEED}) kills the process (exit {r1.returncode}) under interleaving; its thread-free execution completes")
+            return {"crash_program": p, "exit": r1.returncode}, 1, f"VIOLATION property=C20 replay={path}"
+    return {"error": "thsim died from a signal but no single program reproduces it", "exit": rc}, 2, None
+
+
 def part_b(tier, out):
     err = build_thsim()
     if err:
@@ -37,7 +64,7 @@ def part_b(tier, out):
     if os.path.exists(outf):
         os.remove(outf)
     try:
-        r = sh(f"./target-ts/release/thsim run --programs {programs} --schedules {schedules} --seed {SEED} --threads {THREADS} --replay-dir {ROOT}/replays --out {outf}", cwd=SIM,
+        r = sh(f"./target-ts/release/thsim run --programs {programs} --schedules {schedules} --seed {SEED} --threads {THREADS} --replay-dir {ROOT}/replays --out {outf} --progress-dir {SIM}/target-ts/progress-thsim", cwd=SIM,
                timeout=300 if tier == "quick" else 5400)
     except subprocess.TimeoutExpired:
         sh("pkill -KILL -f 'target-ts/release/thsim run'")
@@ -45,6 +72,8 @@ def part_b(tier, out):
                  "what": "thsim did not finish: an OS-level lock (not a shuttle primitive) is held across a seam callback, so the suspended shuttle task that holds it can never be resumed by the task that waits for it on the same OS thread. Real threads would not deadlock here, so this is reported as a harness limitation (inconclusive), never as a violation; Miri (real threads) still runs."},
                 3, None)
     sys.stdout.write(r.stdout)
+    if r.returncode < 0 or r.returncode >= 128:
+        return thsim_crash_triage(r.returncode, schedules)
     try:
         summ = json.load(open(outf))
     except Exception:
@@ -263,6 +292,19 @@ def replay(path):
         sys.stdout.write(r.stdout)
         sys.stderr.write(r.stderr[-2000:])
         return r.returncode
+    if mode == "thsim-crash":
+        err = build_thsim()
+        if err:
+            print("HARNESS: build failed", err[-500:], file=sys.stderr)
+            return 2
+        cmd = f"./target-ts/release/thsim run --programs 1 --first-program {tr['program']} --schedules {tr['schedules']} --seed {tr['seed']} --threads 1 --replay-dir {ROOT}/replays"
+        r = sh(cmd, cwd=SIM)
+        if r.returncode < 0 or r.returncode >= 128:
+            print(f"program {tr['program']} kills the process again (exit {r.returncode})")
+            print(f"VIOLATION property=C20 replay={path}")
+            return 1
+        print("thsim-crash replay completes on this tree")
+        return 0 if r.returncode == 0 else r.returncode
     if mode in ("obligations", "build"):
         a = ob.run("thorough" if mode == "obligations" else "quick")
         if a["violations"]:
